@@ -28,7 +28,7 @@ Theorem C03_other_queue_untouched : forall cfg s a q,
   Inv s -> In q (queues s) ->
   match a with
   | Boot | Stop => False
-  | Finish qn _ => q_name q <> qn
+  | Finish qn _ | FinishWait qn | Elapse qn => q_name q <> qn
   | Tick c => filter (fun t => N.eqb (t_queue t) (q_name q)) (sched_tasks cfg (sched_on s) c) = []
   | KubeEv m o => filter (fun t => N.eqb (t_queue t) (q_name q)) (kube_tasks cfg (unlocked s) m o) = []
   end ->
@@ -36,14 +36,15 @@ Theorem C03_other_queue_untouched : forall cfg s a q,
 Proof. exact other_queue_untouched. Qed.
 Print Assumptions C03_other_queue_untouched.
 
-(* Executions of one queue never overlap and arrivals go to the tail in order: while a
-   handler runs, its queue only grows at the tail, the running task stays its head. *)
+(* Executions of one queue never overlap and arrivals go to the tail in order: while the
+   worker is blocked on its head task - a handler runs, or the back-off delay after a failed
+   run lasts - its queue only grows at the tail, that task stays its head. *)
 Theorem C03_running_queue_only_grows : forall cfg s a q,
   Inv s -> In q (queues s) -> is_running q = true ->
-  match a with Finish qn _ => q_name q <> qn | _ => True end ->
+  match a with Finish qn _ | FinishWait qn | Elapse qn => q_name q <> qn | _ => True end ->
   exists extra,
     step_q cfg a (sched_on s) (unlocked s) (stopped s) (has_queue (queues s)) q
-    = mkQ (q_name q) (q_items q ++ extra) (q_running q).
+    = mkQ (q_name q) (q_items q ++ extra) (q_running q) (q_delay q).
 Proof. exact running_queue_only_grows. Qed.
 Print Assumptions C03_running_queue_only_grows.
 
@@ -63,10 +64,28 @@ Theorem C03_kube_tasks_exactly : forall cfg unl m obj,
 Proof. exact kube_tasks_exactly. Qed.
 Print Assumptions C03_kube_tasks_exactly.
 
+(* a queue in its back-off delay stays blocked whatever happens, until the delay elapses *)
+Theorem C03_delayed_queue_only_grows : forall cfg s a q,
+  Inv s -> In q (queues s) -> q_delay q = true ->
+  match a with Elapse qn => q_name q <> qn | _ => True end ->
+  exists extra,
+    step_q cfg a (sched_on s) (unlocked s) (stopped s) (has_queue (queues s)) q
+    = mkQ (q_name q) (q_items q ++ extra) (q_running q) true.
+Proof. exact delayed_queue_only_grows. Qed.
+Print Assumptions C03_delayed_queue_only_grows.
+
 (* non-vacuity: a reachable state with two busy queues and a waiting task *)
 Example C03_hyp_met :
   let cfg := [mkHook 1 false None [] [mkSb 1 1 0 false 1; mkSb 2 2 0 false 2]] in
   let s := exec cfg [Boot; Tick 1; Tick 2; Tick 1]%N init in
   map (fun q => (q_name q, N.of_nat (length (q_items q)), is_running q)) (queues s)
   = [(0, 0, false); (1, 2, true); (2, 1, true)]%N.
+Proof. vm_compute. reflexivity. Qed.
+
+(* ... and one with a queue waiting in its back-off delay while the other one works on *)
+Example C03_delay_met :
+  let cfg := [mkHook 1 false None [] [mkSb 1 1 0 false 1; mkSb 2 2 0 false 2]] in
+  let s := exec cfg [Boot; Tick 1; Tick 2; FinishWait 1; Tick 1; Finish 2 true; Tick 2]%N init in
+  map (fun q => (q_name q, N.of_nat (length (q_items q)), in_handler q, q_delay q)) (queues s)
+  = [(0, 0, false, false); (1, 2, false, true); (2, 1, true, false)]%N.
 Proof. vm_compute. reflexivity. Qed.
